@@ -122,6 +122,12 @@ def geo_map(name, d, extents):
             return lambda x: (AFF1[0] * np.asarray(x, dtype=float) + AFF1[1],)
         A, t = AFF2 if d == 2 else AFF3
         return lambda *xi: tuple(sum(A[i, j] * np.asarray(xi[j], dtype=float) for j in range(d)) + t[i] for i in range(d))
+    if name == "mirror":         # the affine map followed by the reflection x -> -x: negative Jacobian determinant
+        if d == 1:
+            return lambda x: (-AFF1[0] * np.asarray(x, dtype=float) + AFF1[1],)
+        A, t = AFF2 if d == 2 else AFF3
+        sg = [-1.0] + [1.0] * (d - 1)
+        return lambda *xi: tuple(sg[i] * (sum(A[i, j] * np.asarray(xi[j], dtype=float) for j in range(d)) + t[i]) for i in range(d))
     if name == "quadratic":
         def q(x):
             s, = _normalise((x,), extents)
@@ -162,4 +168,4 @@ def geo_map(name, d, extents):
 
 def det_degree(name, d):
     """per-axis polynomial degree of det J (None: not a polynomial)"""
-    return {"none": 0, "identity": 0, "affine": 0, "multilinear": d - 1}.get(name)
+    return {"none": 0, "identity": 0, "affine": 0, "mirror": 0, "multilinear": d - 1}.get(name)
